@@ -24,7 +24,7 @@
 # parentheses and after the documented simplifications applied as *semantic* normal forms (a string literal is its
 # denoted value; an f-string without an @id@ placeholder is a plain string; files([..]) == files(..); with sort_files
 # the positional arguments of files() are a multiset); the comment sequences are equal; format(output) == output.
-import argparse, contextlib, hashlib, io, itertools, json, os, re, sys
+import argparse, contextlib, hashlib, io, itertools, json, os, re, shutil, sys
 from pathlib import Path
 from verif.core import Check, pmap, run_main, scratch_root, REPO
 from verif import reflang
@@ -1289,6 +1289,42 @@ def cli_case(src, file_nl, cfg, tag, ec_eol=None):
     return ('viol' if viols else 'ok'), viols, {'crlf': b'\r\n' in written, 'changed': would_change, 'rc': rc_check}
 
 
+def cli_multi_case(arr, mode, how):
+    """One invocation over several build files: arr is a tuple of 'F' (already formatted) / 'U' (would change).
+    -> list of (kind, what)"""
+    d = os.path.join(work_dirs()['cli'], '%d-multi' % os.getpid())
+    shutil.rmtree(d, ignore_errors=True)
+    os.makedirs(d)
+    paths, datas = [], []
+    for i, a in enumerate(arr):
+        sub = d if (how == 'recursive' and i == 0) else os.path.join(d, 'd%d' % i)
+        os.makedirs(sub, exist_ok=True)
+        p_ = os.path.join(sub, 'meson.build')
+        text = "x%d = f(a, k: 1)\n" % i if a == 'F' else "x%d=f(a,k:1)\n" % i
+        if how == 'recursive' and i == 0:
+            text += ''.join("subdir('d%d')\n" % j for j in range(1, len(arr)))      # --recursive follows the subdir() calls
+        data = text.encode()
+        with open(p_, 'wb') as fh:
+            fh.write(data)
+        paths.append(p_)
+        datas.append(data)
+    argv = ['--' + mode] + (['--recursive', d] if how == 'recursive' else paths)
+    what = 'meson format %s over files %s (%s)' % ('--' + mode, ''.join(arr), how)
+    try:
+        rc, out = cli(argv)
+    except MesonException as e:
+        return [('multi:rejected', '%s raised %s' % (what, e))]
+    viols = []
+    exp = 1 if 'U' in arr else 0
+    if rc != exp:
+        viols.append(('multi:%s:status' % mode, '%s: exit status %d, expected %d (a difference is reported iff formatting would change a file)' % (what, rc, exp)))
+    for p_, data in zip(paths, datas):
+        with open(p_, 'rb') as fh:
+            if fh.read() != data:
+                viols.append(('multi:%s:writes' % mode, '%s modified %s' % (what, os.path.relpath(p_, d))))
+    return viols
+
+
 CLI_PROGRAMS = [
     "x = f(a, k: 1)\n",                       # already formatted
     "x=f(a,k:1)\n",                           # not formatted
@@ -1612,7 +1648,19 @@ def main():
                 if vc[key] <= 2:
                     ck.violation(key, '%s | input %r | config %s' % (what, src, cfg_key(cfg)),
                                  {'src': src, 'cfg': cfg, 'file_nl': file_nl, 'family': 'cli'})
-        ck.part('cli', cases=n, real_cli_runs=n * 5, skipped_impl_rejects=skipped, violation_counts=dict(sorted(vc.items())), **seen)
+        # several files in one invocation: every arrangement of formatted / unformatted files, 2 and 3 files
+        multi = 0
+        for k in (2, 3):
+            for arr in itertools.product('FU', repeat=k):
+                for mode in ('check-only', 'check-diff'):
+                    for how in ('list', 'recursive'):
+                        multi += 1
+                        for kind, what in cli_multi_case(arr, mode, how):
+                            key = 'C16:cli:' + kind
+                            vc[key] = vc.get(key, 0) + 1
+                            if vc[key] <= 2:
+                                ck.violation(key, what, {'family': 'cli-multi', 'arr': ''.join(arr), 'mode': mode, 'how': how})
+        ck.part('cli', cases=n, real_cli_runs=n * 5 + multi, multi_file_invocations=multi, skipped_impl_rejects=skipped, violation_counts=dict(sorted(vc.items())), **seen)
         need(min(seen.values()) > 0, 'CLI part did not see every outcome: %r' % seen)
         evaluations += n * 5
         classes.add(('cli', 'ok'))
@@ -1668,6 +1716,12 @@ def replay(ck):
     d = json.load(open(ck.args.replay))
     cfg = d.get('cfg') or {}
     work_dirs()
+    if d.get('family') == 'cli-multi':
+        viols = cli_multi_case(tuple(d['arr']), d['mode'], d['how'])
+        for kind, what in viols:
+            print('observed:', kind, what)
+        print('still violates' if viols else 'no violation')
+        sys.exit(1 if viols else 0)
     if d.get('family') == 'cli':
         cfg = dict(cfg)
         ec = cfg.pop('(editorconfig end_of_line)', None)
